@@ -24,7 +24,7 @@ def correspondence(ctx):
 
 
 def replay(ctx, rp):
-    if rp.get("replay", {}).get("script"):
+    if rp.get("replay", {}).get("script") or rp.get("replay", {}).get("oracle") == "system":
         return bool(dc.replay_flows(PROP, rp))
     return sc.stream_replay(ctx, rp, PROP)
 
